@@ -47,7 +47,7 @@ RULE = (
     "zip/msgpack/socket.io/HTTP3/WBXML/DNS, optional byte-level mutation, message wrapper http-req/http-resp/tcp/udp/ws/dns, "
     "content-type matching/other/none, content-encoding, requested view = auto | matching | any registered | unknown); "
     "distinct = distinct (generator kind, wrapper, requested-view class, view that rendered, outcome ok/error-text/raw-fallback, mutated) "
-    "tuple, for DNS cases (wrapper, feature set of the message, outcome); non-trivial = non-empty body that reached a view's prettify"
+    "tuple, for DNS cases (wrapper, feature set of the message, outcome); every DNS message also carries 3-5 records drawn uniformly from all record types mitmproxy names, with well-formed short RDATA (per-type counters rrtype.*); non-trivial = non-empty body that reached a view's prettify"
 )
 ASSUMPTIONS = [
     "control character = Unicode general category Cc other than TAB/LF/CR (same definition as C49)",
@@ -327,8 +327,15 @@ def classify_raise(e, ref, notes):
     return None
 
 
+# the record types mitmproxy names (the *input domain* of the per-type rendering / parsing code); values are numbers only
+from mitmproxy.net.dns import types as _mtypes  # noqa: E402
+
+KNOWN_TYPES = sorted(_mtypes._STRINGS)
+TYPE_NAMES = dict(_mtypes._STRINGS)
+
+
 def dns_case(ctx, r):
-    wire, feats = G.message(r)
+    wire, feats = G.message(r, KNOWN_TYPES)
     try:
         ref = D.decode(wire)
         notes = set(D.NOTES)
@@ -388,6 +395,10 @@ def dns_case(ctx, r):
             else:
                 # reference view of what the DNS view itself was given (for the dnsmsg wrapper: mitmproxy's own re-pack)
                 diffs = D.diff(ref, dec)
+                for s_ in ("answers", "authorities", "additionals"):
+                    for x in ref[s_]:
+                        if x[1] in TYPE_NAMES:
+                            ctx.count("rrtype." + TYPE_NAMES[x[1]])  # records of this type that went through the round trip
                 if not diffs:
                     ctx.count("dns_roundtrip_equal")
                 seen = set()
@@ -409,7 +420,7 @@ def run(ctx):
     with taddons.context():
         for i in ctx.cases():
             r = ctx.rng
-            if r.random() < 0.3:
+            if r.random() < 0.4:
                 dns_case(ctx, r)
                 continue
             body, ct, match, kind = r.choice(B.GENERATORS)(r)
